@@ -549,11 +549,12 @@ def _else_if(n):
     return None
 
 
-def guard_in(rep, rule, key, scope_node, flag, shape_want, other_pred, err_kinds, text, where, settles=None):
+def guard_in(rep, rule, key, scope_node, flag, shape_want, other_pred, err_kinds, text, where, settles=None, after_settle=None):
     """an `if <flag-cond> { return Err }` unconditional within scope_node (`settles`: a branch in front of it, in the same
     if / else-if chain, that is accepted because it makes the guarded condition false instead of refusing)"""
     found = None
     cands = []
+    behind_settle = set()
     for n in uncond_nodes(scope_node):
         if n.get("k") != "If":
             continue
@@ -562,6 +563,7 @@ def guard_in(rep, rule, key, scope_node, flag, shape_want, other_pred, err_kinds
         while settles is not None and settles(cur) and _else_if(cur) is not None:
             cur = _else_if(cur)
             cands.append(cur)
+            behind_settle.add(id(cur))
     for n in cands:
         sh = _cond_shape(n["c"], flag)
         if sh is None:
@@ -569,7 +571,8 @@ def guard_in(rep, rule, key, scope_node, flag, shape_want, other_pred, err_kinds
         if sh[0] != shape_want:
             found = found or ("shape", sh[0], n)
             continue
-        if shape_want == "and" and other_pred is not None and not other_pred(sh[1]):
+        if shape_want == "and" and other_pred is not None and not other_pred(sh[1]) and \
+                not (id(n) in behind_settle and after_settle is not None and after_settle(sh[1])):
             found = ("other", pp(sh[1]), n)
             continue
         if not tc.is_err_value(n["t"]):
@@ -644,7 +647,9 @@ def purity_guards(F, rep):
                     unified = [u_ for u_ in nodes(n_["t"], "MethodCall") if callee(u_) == TC + "unify"]
                     return bool(made) and bool(unified) and all(p_.get("k") == "Try" or True for p_ in [n_])
                 guard_in(rep, "GUARD", "expression|Call|impure-in-pure", fa[0]["body"], "inside_pure", "and", not_pure, None,
-                         "calls of callees whose purity is not Pure inside a pure function are rejected", line_of(fa[0]), settles=settles_open)
+                         "calls of callees whose purity is not Pure inside a pure function are rejected", line_of(fa[0]), settles=settles_open,
+                         # behind the settling branch the purity is Pure or Impure: naming Impure refuses the same callees
+                         after_settle=lambda o_: "Purity::Impure" in pp(o_) and peel(o_).get("k") != "Unary")
         if not ok_struct:
             rep.ob("GUARD", "expression|Call|impure-in-pure", False, "cannot locate the Function arm of the callee-type match", line_of(arm))
 
